@@ -180,17 +180,25 @@ func (s *tapSource) String() string { return "tap(" + s.inner.String() + ")" }
 type jsonServer struct {
 	srv  *httptest.Server
 	mu   sync.Mutex
-	list map[string][]byte // key -> body of GET /providers
-	one  map[string][]byte // key -> body of GET /providers/<pid>
+	list map[string][]byte     // key -> body of GET /providers
+	one  map[string][]byte     // key -> body of GET /providers/<pid>
+	live map[string]*seqSource // key -> a source whose current record is encoded on every request
 }
 
 func newJSONServer() *jsonServer {
-	js := &jsonServer{list: map[string][]byte{}, one: map[string][]byte{}}
+	js := &jsonServer{list: map[string][]byte{}, one: map[string][]byte{}, live: map[string]*seqSource{}}
 	js.srv = httptest.NewServer(http.HandlerFunc(func(w http.ResponseWriter, r *http.Request) {
 		key := r.Header.Get("X-Verif-Key")
 		js.mu.Lock()
 		l, one := js.list[key], js.one[key]
+		lv := js.live[key]
 		js.mu.Unlock()
+		if lv != nil {
+			if pi := lv.cur(); pi != nil {
+				one, _ = json.Marshal(pi)
+				l, _ = json.Marshal([]*model.ProviderInfo{pi})
+			}
+		}
 		w.Header().Set("Content-Type", "application/json")
 		if strings.HasSuffix(r.URL.Path, "/providers") {
 			if l == nil {
@@ -781,7 +789,30 @@ func runHistory(h HistCase) (obs Obs, v2 *model.ProviderInfo, msg string) {
 		}
 	} else {
 		src := &seqSource{info: i1}
-		pc, err = pcache.New(pcache.WithSource(src), pcache.WithRefreshInterval(0))
+		var psrc pcache.ProviderSource = src
+		if h.Mode == "http-refresh" {
+			// the same through pcache's own HTTP source: the server answers with the
+			// JSON of whatever record the source currently holds
+			keyMu.Lock()
+			keyCounter++
+			key := fmt.Sprint("h", keyCounter)
+			keyMu.Unlock()
+			theServer.mu.Lock()
+			theServer.live[key] = src
+			theServer.mu.Unlock()
+			defer func() {
+				theServer.mu.Lock()
+				delete(theServer.live, key)
+				theServer.mu.Unlock()
+			}()
+			hs, e := pcache.NewHTTPSource(theServer.srv.URL, nil)
+			if e != nil {
+				panic(e)
+			}
+			hs.(interface{ AddHeader(string, string) }).AddHeader("X-Verif-Key", key)
+			psrc = hs
+		}
+		pc, err = pcache.New(pcache.WithSource(psrc), pcache.WithRefreshInterval(0))
 		if err != nil {
 			panic(err)
 		}
@@ -1152,7 +1183,7 @@ func main() {
 		{Chain: Set{Provs: []int{3}, Mds: []int{}}, Ctxs: []CtxSet{{ID: 2, Override: true, Set: Set{Provs: []int{1}, Mds: []int{mdDiffA}}}}},
 	}
 	var histFails []HistCase
-	for _, mode := range []string{"refresh", "miss"} {
+	for _, mode := range []string{"refresh", "miss", "http-refresh"} {
 		for _, r1 := range v1s {
 			for _, r2 := range v2s {
 				for md := 0; md < 3; md++ {
